@@ -286,6 +286,78 @@ func TestUnicodeClassesRouteVsRoute(t *testing.T) {
 	})
 }
 
+// Unicode classes on the direct route, decided relationally on single characters (no reference semantics exists for
+// \p{..}): \P{X} matches a character iff \p{X} does not, inside and outside of bracket groups, and the NFA route
+// agrees on every character but NUL. The two polarities are built in both orders (a class built earlier in the process
+// must not stand in for its complement).
+func TestUnicodeClassesOnCharactersDirectRoute(t *testing.T) {
+	rec.Begin(t)
+	rec.Rule(rule)
+	if rec.Shard() != 0 {
+		t.Skip("seed independent: shard 0 only")
+	}
+	// (classes of moderate size: the direct construction is quadratic in the number of character positions)
+	names := []string{"Lu", "Ll", "Lt", "Lm", "Nd", "Nl", "Pc", "Pd", "Ps", "Sm", "Sc", "Sk", "Zs", "Latin", "Greek", "Cyrillic"}
+	chars := []rune{}
+	for c := rune(1); c < 0x80; c++ {
+		chars = append(chars, c)
+	}
+	chars = append(chars, 0xAA, 0xB5, 0xC9, 0xE9, 0xD7, 0x2B0, 0x300, 0x391, 0x3C9, 0x410, 0x44F, 0x5D0, 0x660, 0x2160, 0x2028, 0x20AC, 0x2211, 0x4E2D, 0x1F600, 0x10FFFF)
+	accepts := func(d *auto.DFA, c rune) bool { return d.Accept(auto.String{auto.Symbol(c)}) }
+	for i, name := range names {
+		direct := func(p string) *auto.DFA {
+			var d *auto.DFA
+			_ = rec.Guard(func() {
+				if a, err := rast.Parse(p); err == nil {
+					d = a.ToDFA()
+				}
+			})
+			return d
+		}
+		viaNFA := func(p string) *auto.DFA {
+			var d *auto.DFA
+			_ = rec.Guard(func() {
+				if n, err := nfa.Parse(p); err == nil {
+					d = n.ToDFA()
+				}
+			})
+			return d
+		}
+		var pos, neg *auto.DFA
+		if i%2 == 0 {
+			pos, neg = direct(`\p{`+name+`}`), direct(`\P{`+name+`}`)
+		} else {
+			neg, pos = direct(`\P{`+name+`}`), direct(`\p{`+name+`}`)
+		}
+		inNeg, outPos := direct(`[\P{`+name+`}]`), direct(`[^\p{`+name+`}x]`)
+		nPos, nNeg := viaNFA(`\p{`+name+`}`), viaNFA(`\P{`+name+`}`)
+		if pos == nil || neg == nil || inNeg == nil || outPos == nil || nPos == nil || nNeg == nil {
+			rec.Count("unicode_class_names_not_accepted_by_both_routes", 1)
+			continue
+		}
+		for _, c := range chars {
+			in := accepts(pos, c)
+			rec.Case(fmt.Sprintf("class:%s:%x", name, c), true, "unicode_class_on_character_direct_route")
+			check := func(form string, got, expect bool) {
+				if got != expect {
+					rec.Fail(t, "class", map[string]any{"pattern": form, "char": int(c)}, "direct route, pattern %s on the character U+%04X: matches=%v, expected %v (\\p{%s} matches it: %v)", form, c, got, expect, name, in)
+				}
+			}
+			if c < 0x80 { // negation is relative to ASCII (documented): beyond it neither form matches
+				check(`\P{`+name+`}`, accepts(neg, c), !in)
+				check(`[\P{`+name+`}]`, accepts(inNeg, c), !in)
+				check(`[^\p{`+name+`}x]`, accepts(outPos, c), !in && c != 'x') // negation is relative to ASCII
+			}
+			if accepts(nPos, c) != in {
+				rec.Fail(t, "class", map[string]any{"pattern": `\p{` + name + `}`, "char": int(c)}, "pattern \\p{%s} on the character U+%04X: the direct route matches=%v, the NFA route matches=%v", name, c, in, accepts(nPos, c))
+			}
+			if accepts(nNeg, c) != accepts(neg, c) {
+				rec.Fail(t, "class", map[string]any{"pattern": `\P{` + name + `}`, "char": int(c)}, "pattern \\P{%s} on the character U+%04X: the direct route matches=%v, the NFA route matches=%v", name, c, accepts(neg, c), accepts(nNeg, c))
+			}
+		}
+	}
+}
+
 // regression tier: the inputs of repaired defects (known_findings.json, status fixed)
 func TestFixedRegressions(t *testing.T) {
 	rec.Begin(t)
